@@ -2,6 +2,7 @@
 mod conc;
 mod explore;
 mod families;
+mod faults;
 mod interp;
 mod report;
 mod rt;
@@ -21,6 +22,7 @@ fn main() {
 		"C04" => seqchecks::check_c04(&tier),
 		"C07" => seqchecks::check_c07(&tier),
 		"C08" => seqchecks::check_c08(&tier),
+		"C12" => faults::check_c12(&tier),
 		"C13" => seqchecks::check_c13(&tier),
 		"C17" => seqchecks::check_c17(&tier),
 		_ => {
